@@ -8,7 +8,7 @@ C10 — credentials conform to the documented v3 format in both directions.
 layout); these theorems relate it to the model of the daemon, generically in the primitives.
 -/
 namespace Munge.C10
-open Munge.Cred Munge.SpecV3 Munge.Gen.Dec
+open Munge.Cred Munge.Cred.B Munge.SpecV3 Munge.Gen.Dec
 
 /-- the fields a successful encode put into the credential, read off the message it returns and the
     environment it ran in -/
